@@ -21,8 +21,482 @@ def BCall.InRange : BCall → Prop
 def IsSortOf (sorted rs : List PRange) : Prop :=
   sorted.Perm rs ∧ sorted.Pairwise (fun a b => a.start ≤ b.start)
 
+/-! ### sorting -/
+
+theorem insertByStart_perm (x : PRange) (l : List PRange) : (insertByStart x l).Perm (x :: l) := by
+  induction l with
+  | nil => exact List.Perm.refl _
+  | cons y ys ih =>
+    unfold insertByStart
+    split
+    · exact List.Perm.refl _
+    · exact ((List.Perm.cons y ih).trans (List.Perm.swap x y ys))
+
+theorem insertByStart_sorted (x : PRange) (l : List PRange)
+    (h : l.Pairwise (fun a b => a.start ≤ b.start)) :
+    (insertByStart x l).Pairwise (fun a b => a.start ≤ b.start) := by
+  induction l with
+  | nil => simp [insertByStart]
+  | cons y ys ih =>
+    unfold insertByStart
+    rw [List.pairwise_cons] at h
+    split
+    · rename_i hlt
+      refine List.pairwise_cons.2 ⟨?_, List.pairwise_cons.2 h⟩
+      intro z hz
+      rcases List.mem_cons.1 hz with rfl | hz
+      · omega
+      · have := h.1 z hz; omega
+    · rename_i hge
+      refine List.pairwise_cons.2 ⟨?_, ih h.2⟩
+      intro z hz
+      have hz' := (insertByStart_perm x ys).mem_iff.1 hz
+      rcases List.mem_cons.1 hz' with rfl | hz'
+      · omega
+      · exact h.1 z hz'
+
 theorem sortByStart_isSort (rs : List PRange) : IsSortOf (sortByStart rs) rs := by
-  sorry
+  induction rs with
+  | nil => exact ⟨List.Perm.refl _, List.Pairwise.nil⟩
+  | cons x xs ih =>
+    have e : sortByStart (x :: xs) = insertByStart x (sortByStart xs) := rfl
+    rw [e]
+    exact ⟨(insertByStart_perm x _).trans (List.Perm.cons x ih.1), insertByStart_sorted x _ ih.2⟩
+
+/-! ### range lists as sets -/
+
+/-- membership in the union of a list of ranges -/
+def memR (rs : List PRange) (x : Int) : Prop := ∃ r ∈ rs, r.start ≤ x ∧ x < r.stop
+
+/-- every range is non-empty and starts at a non-negative position -/
+def Good (rs : List PRange) : Prop := ∀ r ∈ rs, 0 ≤ r.start ∧ r.start < r.stop
+
+/-- every range ends strictly before every later range starts -/
+def Disj (rs : List PRange) : Prop := rs.Pairwise (fun a b => a.stop < b.start)
+
+theorem memRanges_toPairs (rs : List PRange) (x : Int) :
+    Spec.memRanges (toPairs rs) x ↔ memR rs x := by
+  unfold Spec.memRanges memR toPairs
+  constructor
+  · rintro ⟨p, hp, h⟩
+    obtain ⟨r, hr, rfl⟩ := List.mem_map.1 hp
+    exact ⟨r, hr, h⟩
+  · rintro ⟨r, hr, h⟩
+    exact ⟨_, List.mem_map.2 ⟨r, hr, rfl⟩, h⟩
+
+theorem good_nil : Good [] := by intro r hr; cases hr
+
+theorem good_cons {a : PRange} {l : List PRange} :
+    Good (a :: l) ↔ (0 ≤ a.start ∧ a.start < a.stop) ∧ Good l := by
+  simp [Good]
+
+theorem good_append {l₁ l₂ : List PRange} : Good (l₁ ++ l₂) ↔ Good l₁ ∧ Good l₂ := by
+  simp only [Good, List.mem_append]
+  constructor
+  · intro h; exact ⟨fun r hr => h r (Or.inl hr), fun r hr => h r (Or.inr hr)⟩
+  · rintro ⟨h1, h2⟩ r (hr | hr)
+    · exact h1 r hr
+    · exact h2 r hr
+
+theorem good_singleton {a : PRange} : Good [a] ↔ (0 ≤ a.start ∧ a.start < a.stop) := by
+  simp [Good]
+
+theorem memR_nil (x : Int) : ¬ memR [] x := by
+  rintro ⟨r, hr, _⟩; cases hr
+
+theorem memR_append {l₁ l₂ : List PRange} {x : Int} :
+    memR (l₁ ++ l₂) x ↔ memR l₁ x ∨ memR l₂ x := by
+  simp only [memR, List.mem_append]
+  constructor
+  · rintro ⟨r, hr | hr, h⟩
+    · exact Or.inl ⟨r, hr, h⟩
+    · exact Or.inr ⟨r, hr, h⟩
+  · rintro (⟨r, hr, h⟩ | ⟨r, hr, h⟩)
+    · exact ⟨r, Or.inl hr, h⟩
+    · exact ⟨r, Or.inr hr, h⟩
+
+theorem memR_singleton {a : PRange} {x : Int} : memR [a] x ↔ (a.start ≤ x ∧ x < a.stop) := by
+  simp [memR]
+
+theorem memR_cons {a : PRange} {l : List PRange} {x : Int} :
+    memR (a :: l) x ↔ (a.start ≤ x ∧ x < a.stop) ∨ memR l x := by
+  simp [memR]
+
+theorem memR_perm {l₁ l₂ : List PRange} (h : l₁.Perm l₂) (x : Int) : memR l₁ x ↔ memR l₂ x := by
+  unfold memR
+  constructor
+  · rintro ⟨r, hr, hx⟩; exact ⟨r, h.mem_iff.1 hr, hx⟩
+  · rintro ⟨r, hr, hx⟩; exact ⟨r, h.mem_iff.2 hr, hx⟩
+
+theorem good_perm {l₁ l₂ : List PRange} (h : l₁.Perm l₂) : Good l₁ ↔ Good l₂ := by
+  unfold Good
+  constructor
+  · intro g r hr; exact g r (h.mem_iff.2 hr)
+  · intro g r hr; exact g r (h.mem_iff.1 hr)
+
+theorem disj_cons {a : PRange} {l : List PRange} :
+    Disj (a :: l) ↔ (∀ b ∈ l, a.stop < b.start) ∧ Disj l := by
+  unfold Disj; exact List.pairwise_cons
+
+theorem disj_snoc {init : List PRange} {l : PRange} :
+    Disj (init ++ [l]) ↔ Disj init ∧ ∀ a ∈ init, a.stop < l.start := by
+  simp [Disj, List.pairwise_append]
+
+/-- the chain-style `NormalRanges` of the specification is `Good ∧ Disj` -/
+theorem normal_iff (rs : List PRange) : Spec.NormalRanges (toPairs rs) ↔ Good rs ∧ Disj rs := by
+  induction rs with
+  | nil => simp [toPairs, Spec.NormalRanges, Good, Disj]
+  | cons a t ih =>
+    cases t with
+    | nil => simp [toPairs, Spec.NormalRanges, Good, Disj]
+    | cons b t' =>
+      have e : toPairs (a :: b :: t') = (a.start, a.stop) :: (b.start, b.stop) :: toPairs t' := rfl
+      have e' : toPairs (b :: t') = (b.start, b.stop) :: toPairs t' := rfl
+      rw [e, Spec.NormalRanges, ← e', ih, good_cons (a := a), disj_cons (a := a)]
+      constructor
+      · rintro ⟨h0, h1, h2, hg, hd⟩
+        refine ⟨⟨⟨h0, h1⟩, hg⟩, ?_, hd⟩
+        intro c hc
+        rcases List.mem_cons.1 hc with rfl | hc
+        · exact h2
+        · have := (disj_cons.1 hd).1 c hc
+          have := (good_cons.1 hg).1
+          omega
+      · rintro ⟨⟨⟨h0, h1⟩, hg⟩, h2, hd⟩
+        exact ⟨h0, h1, h2 b (List.mem_cons_self ..), hg, hd⟩
+
+/-! ### `appendNotBefore` -/
+
+theorem exists_snoc_of_ne_nil {rs : List PRange} (h : rs ≠ []) :
+    ∃ init last, rs = init ++ [last] := by
+  rcases List.eq_nil_or_concat rs with h' | ⟨init, last, h'⟩
+  · exact absurd h' h
+  · exact ⟨init, last, by rw [h', List.concat_eq_append]⟩
+
+theorem anb_eq (item last : PRange) (init : List PRange) :
+    appendNotBefore item (init ++ [last]) =
+      .ok (if item.start ≤ last.stop then
+             (if item.stop > last.stop then init ++ [{ last with stop := item.stop }]
+              else init ++ [last])
+           else init ++ [last] ++ [item]) := by
+  unfold appendNotBefore
+  rw [List.getLast?_concat]
+  simp only [List.dropLast_concat]
+  split
+  · split <;> rfl
+  · rfl
+
+/-- everything the proofs need to know about one `appendNotBefore` step -/
+theorem anb_spec (item last : PRange) (init : List PRange)
+    (h0 : 0 ≤ item.start) (h1 : item.start < item.stop) (hl : last.start ≤ item.start)
+    (hg : Good (init ++ [last])) :
+    ∃ rs', appendNotBefore item (init ++ [last]) = .ok rs' ∧ rs' ≠ [] ∧ Good rs' ∧
+      (∀ x, memR rs' x ↔ memR (init ++ [last]) x ∨ (item.start ≤ x ∧ x < item.stop)) ∧
+      (Disj (init ++ [last]) → Disj rs') ∧
+      (∀ k, (∀ a ∈ init ++ [last], a.start ≤ k) → item.start ≤ k → ∀ a ∈ rs', a.start ≤ k) := by
+  rw [anb_eq]
+  rw [good_append, good_singleton] at hg
+  obtain ⟨hgi, hgl0, hgl1⟩ := hg
+  by_cases c1 : item.start ≤ last.stop
+  · by_cases c2 : item.stop > last.stop
+    · refine ⟨_, by rw [if_pos c1, if_pos c2], by simp, ?_, ?_, ?_, ?_⟩
+      · rw [good_append, good_singleton]
+        refine ⟨hgi, hgl0, ?_⟩
+        show last.start < item.stop
+        omega
+      · intro x
+        rw [memR_append, memR_append, memR_singleton, memR_singleton]
+        show _ ∨ (last.start ≤ x ∧ x < item.stop) ↔ _
+        constructor
+        · rintro (h | h)
+          · exact Or.inl (Or.inl h)
+          · by_cases hx : x < last.stop
+            · exact Or.inl (Or.inr ⟨h.1, hx⟩)
+            · exact Or.inr ⟨by omega, h.2⟩
+        · rintro ((h | h) | h)
+          · exact Or.inl h
+          · exact Or.inr ⟨h.1, by omega⟩
+          · exact Or.inr ⟨by omega, h.2⟩
+      · rw [disj_snoc, disj_snoc]
+        exact fun h => h
+      · intro k hk hik a ha
+        rcases List.mem_append.1 ha with ha | ha
+        · exact hk a (List.mem_append.2 (Or.inl ha))
+        · rw [List.mem_singleton] at ha
+          subst ha
+          exact hk last (List.mem_append.2 (Or.inr (List.mem_singleton.2 rfl)))
+    · refine ⟨_, by rw [if_pos c1, if_neg c2], by simp, ?_, ?_, fun h => h, ?_⟩
+      · rw [good_append, good_singleton]
+        exact ⟨hgi, hgl0, hgl1⟩
+      · intro x
+        rw [memR_append, memR_singleton]
+        constructor
+        · exact Or.inl
+        · rintro (h | h)
+          · exact h
+          · exact Or.inr ⟨by omega, by omega⟩
+      · intro k hk _ a ha
+        exact hk a ha
+  · refine ⟨_, by rw [if_neg c1], by simp, ?_, ?_, ?_, ?_⟩
+    · rw [good_append, good_append, good_singleton, good_singleton]
+      exact ⟨⟨hgi, hgl0, hgl1⟩, h0, h1⟩
+    · intro x
+      rw [memR_append (l₂ := [item]), memR_singleton]
+    · intro hd
+      rw [disj_snoc]
+      refine ⟨hd, ?_⟩
+      rw [disj_snoc] at hd
+      intro a ha
+      rcases List.mem_append.1 ha with ha | ha
+      · have := hd.2 a ha
+        omega
+      · rw [List.mem_singleton] at ha
+        subst ha
+        omega
+    · intro k hk hik a ha
+      rcases List.mem_append.1 ha with ha | ha
+      · exact hk a ha
+      · rw [List.mem_singleton] at ha
+        subst ha
+        exact hik
+
+/-! ### the merge pass of `Build` -/
+
+theorem merge_fold (rest : List PRange) : ∀ (acc : List PRange), acc ≠ [] → Good acc → Disj acc →
+    Good rest → rest.Pairwise (fun a b => a.start ≤ b.start) →
+    (∀ a ∈ acc, ∀ r ∈ rest, a.start ≤ r.start) →
+    ∃ r, rest.foldlM (fun acc r => appendNotBefore r acc) acc = .ok r ∧ Good r ∧ Disj r ∧
+      ∀ x, memR r x ↔ memR acc x ∨ memR rest x := by
+  induction rest with
+  | nil =>
+    intro acc _ hg hd _ _ _
+    exact ⟨acc, rfl, hg, hd, fun x => ⟨Or.inl, fun h => h.elim id (fun h => absurd h (memR_nil x))⟩⟩
+  | cons item rest ih =>
+    intro acc hne hg hd hgr hs hle
+    obtain ⟨init, last, rfl⟩ := exists_snoc_of_ne_nil hne
+    rw [good_cons] at hgr
+    rw [List.pairwise_cons] at hs
+    obtain ⟨rs', e, hne', hg', hm', hd', hk'⟩ :=
+      anb_spec item last init hgr.1.1 hgr.1.2
+        (hle last (List.mem_append.2 (Or.inr (List.mem_singleton.2 rfl))) item
+          (List.mem_cons_self ..)) hg
+    obtain ⟨r, er, hgr', hdr, hmr⟩ := ih rs' hne' hg' (hd' hd) hgr.2 hs.2 (by
+      intro a ha r hr
+      exact hk' r.start (fun a ha => hle a ha r (List.mem_cons_of_mem _ hr)) (hs.1 r hr) a ha)
+    refine ⟨r, ?_, hgr', hdr, ?_⟩
+    · rw [List.foldlM_cons, e]
+      exact er
+    · intro x
+      rw [hmr, hm', memR_cons]
+      constructor
+      · rintro ((h | h) | h)
+        · exact Or.inl h
+        · exact Or.inr (Or.inl h)
+        · exact Or.inr (Or.inr h)
+      · rintro (h | h | h)
+        · exact Or.inl (Or.inl h)
+        · exact Or.inl (Or.inr h)
+        · exact Or.inr h
+
+theorem mergeSorted_spec (sorted : List PRange) (hne : sorted ≠ []) (hg : Good sorted)
+    (hs : sorted.Pairwise (fun a b => a.start ≤ b.start)) :
+    ∃ r, mergeSorted sorted = .ok r ∧ Good r ∧ Disj r ∧ ∀ x, memR r x ↔ memR sorted x := by
+  cases sorted with
+  | nil => exact absurd rfl hne
+  | cons r0 rest =>
+    rw [good_cons] at hg
+    rw [List.pairwise_cons] at hs
+    obtain ⟨r, er, hgr, hdr, hmr⟩ := merge_fold rest [r0] (by simp) (good_singleton.2 hg.1)
+      (List.pairwise_singleton _ _) hg.2 hs.2 (by
+        intro a ha r hr
+        rw [List.mem_singleton] at ha
+        subst ha
+        exact hs.1 r hr)
+    refine ⟨r, er, hgr, hdr, ?_⟩
+    intro x
+    rw [hmr, memR_singleton, memR_cons]
+
+/-! ### the builder invariant -/
+
+structure Inv (b : Builder) : Prop where
+  good : Good b.ranges
+  sorted : b.unsorted = false → Disj b.ranges
+  nonempty : b.unsorted = true → b.ranges ≠ []
+
+theorem inv_empty : Inv {} :=
+  ⟨good_nil, fun _ => List.Pairwise.nil, fun h => by cases h⟩
+
+theorem addRange_spec (b : Builder) (s e : Int) (hb : Inv b) :
+    ∃ b', b.addRange s e = .ok b' ∧ Inv b' ∧
+      ∀ x, memR b'.ranges x ↔ memR b.ranges x ∨ (0 ≤ x ∧ s ≤ x ∧ x < e) := by
+  obtain ⟨rs, u⟩ := b
+  obtain ⟨hgood, hsorted, hnonempty⟩ := hb
+  simp only at hgood hsorted hnonempty
+  have hs0 : 0 ≤ (if s < 0 then 0 else s) := by split <;> omega
+  have hsx : ∀ x, (if s < 0 then 0 else s) ≤ x ↔ (0 ≤ x ∧ s ≤ x) := by
+    intro x; split <;> omega
+  unfold Builder.addRange
+  simp only []
+  generalize (if s < 0 then 0 else s) = s' at hs0 hsx ⊢
+  by_cases he : e ≤ s'
+  · rw [if_pos he]
+    refine ⟨_, rfl, ⟨hgood, hsorted, hnonempty⟩, fun x => ⟨Or.inl, ?_⟩⟩
+    rintro (h | ⟨h0, h1, h2⟩)
+    · exact h
+    · have := (hsx x).2 ⟨h0, h1⟩
+      omega
+  · rw [if_neg he]
+    split
+    · rename_i hnone
+      rw [List.getLast?_eq_none_iff] at hnone
+      subst hnone
+      refine ⟨_, rfl, ⟨?_, ?_, ?_⟩, ?_⟩
+      · show Good ([] ++ [⟨s', e⟩])
+        rw [List.nil_append, good_singleton]
+        exact ⟨hs0, by show s' < e; omega⟩
+      · intro _
+        show Disj ([] ++ [⟨s', e⟩])
+        exact List.pairwise_singleton _ _
+      · intro _
+        show ([] ++ [(⟨s', e⟩ : PRange)]) ≠ []
+        simp
+      · intro x
+        show memR ([] ++ [⟨s', e⟩]) x ↔ _
+        rw [List.nil_append, memR_singleton]
+        show (s' ≤ x ∧ x < e) ↔ _
+        rw [hsx]
+        constructor
+        · rintro ⟨⟨h0, h1⟩, h2⟩; exact Or.inr ⟨h0, h1, h2⟩
+        · rintro (h | ⟨h0, h1, h2⟩)
+          · exact absurd h (memR_nil x)
+          · exact ⟨⟨h0, h1⟩, h2⟩
+    · rename_i last hsome
+      obtain ⟨init, rfl⟩ := List.getLast?_eq_some_iff.1 hsome
+      by_cases hlt : s' < last.start
+      · rw [if_pos hlt]
+        refine ⟨_, rfl, ⟨?_, ?_, ?_⟩, ?_⟩
+        · show Good (init ++ [last] ++ [⟨s', e⟩])
+          rw [good_append, good_singleton]
+          exact ⟨hgood, hs0, by show s' < e; omega⟩
+        · intro h; cases h
+        · intro _
+          show (init ++ [last] ++ [(⟨s', e⟩ : PRange)]) ≠ []
+          simp
+        · intro x
+          show memR (init ++ [last] ++ [⟨s', e⟩]) x ↔ _
+          rw [memR_append (l₂ := [⟨s', e⟩]), memR_singleton]
+          show _ ∨ (s' ≤ x ∧ x < e) ↔ _
+          rw [hsx]
+          constructor
+          · rintro (h | ⟨⟨h0, h1⟩, h2⟩)
+            · exact Or.inl h
+            · exact Or.inr ⟨h0, h1, h2⟩
+          · rintro (h | ⟨h0, h1, h2⟩)
+            · exact Or.inl h
+            · exact Or.inr ⟨⟨h0, h1⟩, h2⟩
+      · rw [if_neg hlt]
+        obtain ⟨rs', e', hne', hg', hm', hd', _⟩ :=
+          anb_spec ⟨s', e⟩ last init hs0 (by show s' < e; omega) (by show last.start ≤ s'; omega)
+            hgood
+        rw [e']
+        refine ⟨_, rfl, ⟨hg', fun h => hd' (hsorted h), fun _ => hne'⟩, ?_⟩
+        intro x
+        show memR rs' x ↔ _
+        rw [hm']
+        show _ ∨ (s' ≤ x ∧ x < e) ↔ _
+        rw [hsx]
+        constructor
+        · rintro (h | ⟨⟨h0, h1⟩, h2⟩)
+          · exact Or.inl h
+          · exact Or.inr ⟨h0, h1, h2⟩
+        · rintro (h | ⟨h0, h1, h2⟩)
+          · exact Or.inl h
+          · exact Or.inr ⟨⟨h0, h1⟩, h2⟩
+
+theorem add_covers (p x : Int) (h : minInt ≤ p ∧ p ≤ maxInt) :
+    (0 ≤ x ∧ p ≤ x ∧ x < wrap64 (p + 1)) ↔ (0 ≤ x ∧ x = p ∧ p ≠ Spec.maxInt) := by
+  unfold wrap64
+  by_cases c1 : p + 1 > maxInt
+  · rw [if_pos c1]
+    simp only [minInt, maxInt, Spec.maxInt] at *
+    omega
+  · rw [if_neg c1]
+    by_cases c2 : p + 1 < minInt
+    · rw [if_pos c2]
+      simp only [minInt, maxInt, Spec.maxInt] at *
+      omega
+    · rw [if_neg c2]
+      simp only [minInt, maxInt, Spec.maxInt] at *
+      omega
+
+theorem call_spec (b : Builder) (c : BCall) (hc : BCall.InRange c) (hb : Inv b) :
+    ∃ b', b.call c = .ok b' ∧ Inv b' ∧
+      ∀ x, memR b'.ranges x ↔ memR b.ranges x ∨ (0 ≤ x ∧ (toSpecCall c).covers x) := by
+  cases c with
+  | addRange s e => exact addRange_spec b s e hb
+  | add p =>
+    obtain ⟨b', e, hi, hm⟩ := addRange_spec b p (wrap64 (p + 1)) hb
+    refine ⟨b', e, hi, ?_⟩
+    intro x
+    rw [hm, add_covers p x hc]
+    exact Iff.rfl
+
+theorem calls_spec (cs : List BCall) : ∀ (b : Builder), (∀ c ∈ cs, BCall.InRange c) → Inv b →
+    ∃ b', b.calls cs = .ok b' ∧ Inv b' ∧
+      ∀ x, memR b'.ranges x ↔
+        memR b.ranges x ∨ (0 ≤ x ∧ ∃ c ∈ cs.map toSpecCall, c.covers x) := by
+  induction cs with
+  | nil =>
+    intro b _ hb
+    refine ⟨b, rfl, hb, fun x => ⟨Or.inl, ?_⟩⟩
+    rintro (h | ⟨_, c, hc, _⟩)
+    · exact h
+    · cases hc
+  | cons c cs ih =>
+    intro b hcs hb
+    obtain ⟨b1, e1, hb1, hm1⟩ := call_spec b c (hcs c (List.mem_cons_self ..)) hb
+    obtain ⟨b2, e2, hb2, hm2⟩ := ih b1 (fun c' hc' => hcs c' (List.mem_cons_of_mem _ hc')) hb1
+    refine ⟨b2, ?_, hb2, ?_⟩
+    · unfold Builder.calls at e2 ⊢
+      rw [List.foldlM_cons, e1]
+      exact e2
+    · intro x
+      rw [hm2, hm1, List.map_cons]
+      constructor
+      · rintro ((h | ⟨h0, h⟩) | ⟨h0, c', hc', h⟩)
+        · exact Or.inl h
+        · exact Or.inr ⟨h0, _, List.mem_cons_self .., h⟩
+        · exact Or.inr ⟨h0, c', List.mem_cons_of_mem _ hc', h⟩
+      · rintro (h | ⟨h0, c', hc', h⟩)
+        · exact Or.inl (Or.inl h)
+        · rcases List.mem_cons.1 hc' with rfl | hc'
+          · exact Or.inl (Or.inr ⟨h0, h⟩)
+          · exact Or.inr ⟨h0, c', hc', h⟩
+
+theorem buildWith_spec (b : Builder) (hb : Inv b) (sorted : List PRange)
+    (hs : IsSortOf sorted b.ranges) :
+    ∃ r, b.buildWith sorted = .ok (r, {}) ∧ Spec.NormalRanges (toPairs r) ∧
+      ∀ x, Spec.memRanges (toPairs r) x ↔ memR b.ranges x := by
+  unfold Builder.buildWith
+  by_cases hu : b.unsorted = true
+  · have hne : sorted ≠ [] := by
+      intro h
+      rw [h] at hs
+      exact hb.nonempty hu (List.nil_perm.1 hs.1)
+    obtain ⟨r, er, hg, hd, hm⟩ :=
+      mergeSorted_spec sorted hne ((good_perm hs.1).2 hb.good) hs.2
+    refine ⟨r, ?_, (normal_iff r).2 ⟨hg, hd⟩, ?_⟩
+    · rw [hu, er]; rfl
+    · intro x
+      rw [memRanges_toPairs, hm, memR_perm hs.1]
+  · have hu' : b.unsorted = false := by
+      cases h : b.unsorted
+      · rfl
+      · exact absurd h hu
+    refine ⟨b.ranges, ?_, (normal_iff _).2 ⟨hb.good, hb.sorted hu'⟩, ?_⟩
+    · rw [hu']; rfl
+    · intro x
+      rw [memRanges_toPairs]
 
 /-- C11 main theorem: any sequence of Add/AddRange calls on an empty builder succeeds (no panic),
 and Build — whatever permutation the sort produces — returns the normal form of exactly the
@@ -33,42 +507,203 @@ theorem calls_build_normal (cs : List BCall) (hcs : ∀ c ∈ cs, BCall.InRange 
         ∃ r, b.buildWith sorted = .ok (r, {}) ∧
           Spec.NormalRanges (toPairs r) ∧
           ∀ x, Spec.memRanges (toPairs r) x ↔ Spec.memCalls (cs.map toSpecCall) x := by
-  sorry
+  obtain ⟨b, e, hb, hm⟩ := calls_spec cs {} hcs inv_empty
+  refine ⟨b, e, ?_⟩
+  intro sorted hs
+  obtain ⟨r, er, hn, hmr⟩ := buildWith_spec b hb sorted hs
+  refine ⟨r, er, hn, ?_⟩
+  intro x
+  rw [hmr, hm]
+  unfold Spec.memCalls
+  constructor
+  · rintro (h | h)
+    · exact absurd h (memR_nil x)
+    · exact h
+  · exact Or.inr
 
 /-- the executable model's Build is one instance -/
 theorem calls_build_normal_exec (cs : List BCall) (hcs : ∀ c ∈ cs, BCall.InRange c) :
     ∃ b r, ({} : Builder).calls cs = .ok b ∧ b.build = .ok (r, {}) ∧
       Spec.NormalRanges (toPairs r) ∧
       ∀ x, Spec.memRanges (toPairs r) x ↔ Spec.memCalls (cs.map toSpecCall) x := by
-  sorry
+  obtain ⟨b, e, h⟩ := calls_build_normal cs hcs
+  obtain ⟨r, er, hn, hm⟩ := h (sortByStart b.ranges) (sortByStart_isSort b.ranges)
+  exact ⟨b, r, e, er, hn, hm⟩
+
+/-! ### uniqueness of normal forms -/
+
+theorem memRanges_nil (x : Int) : ¬ Spec.memRanges [] x := by
+  rintro ⟨r, hr, _⟩; cases hr
+
+theorem memRanges_cons {p : Int × Int} {l : List (Int × Int)} {x : Int} :
+    Spec.memRanges (p :: l) x ↔ (p.1 ≤ x ∧ x < p.2) ∨ Spec.memRanges l x := by
+  simp [Spec.memRanges]
+
+theorem normal_cons {s e : Int} {l : List (Int × Int)} (h : Spec.NormalRanges ((s, e) :: l)) :
+    0 ≤ s ∧ s < e ∧ Spec.NormalRanges l := by
+  cases l with
+  | nil => exact ⟨h.1, h.2, trivial⟩
+  | cons p l' =>
+    obtain ⟨s', e'⟩ := p
+    exact ⟨h.1, h.2.1, h.2.2.2⟩
+
+theorem normal_lower (l : List (Int × Int)) : ∀ (s e : Int), Spec.NormalRanges ((s, e) :: l) →
+    ∀ x, Spec.memRanges ((s, e) :: l) x → s ≤ x := by
+  induction l with
+  | nil =>
+    intro s e _ x hx
+    rcases memRanges_cons.1 hx with h | h
+    · exact h.1
+    · exact absurd h (memRanges_nil x)
+  | cons p l' ih =>
+    obtain ⟨s', e'⟩ := p
+    intro s e hn x hx
+    rcases memRanges_cons.1 hx with h | h
+    · exact h.1
+    · have h1 : s < e := hn.2.1
+      have h2 : e < s' := hn.2.2.1
+      have := ih s' e' hn.2.2.2 x h
+      omega
+
+theorem normal_gap {s e : Int} {l : List (Int × Int)} (hn : Spec.NormalRanges ((s, e) :: l)) :
+    ∀ x, Spec.memRanges l x → e < x := by
+  cases l with
+  | nil => intro x hx; exact absurd hx (memRanges_nil x)
+  | cons p l' =>
+    obtain ⟨s', e'⟩ := p
+    intro x hx
+    have h2 : e < s' := hn.2.2.1
+    have := normal_lower l' s' e' hn.2.2.2 x hx
+    omega
 
 /-- normal forms are unique: the result does not depend on which sorted permutation was used,
 nor on the order or grouping of the calls -/
 theorem normal_unique (r₁ r₂ : List (Int × Int)) (h₁ : Spec.NormalRanges r₁) (h₂ : Spec.NormalRanges r₂)
     (h : ∀ x, Spec.memRanges r₁ x ↔ Spec.memRanges r₂ x) : r₁ = r₂ := by
-  sorry
+  induction r₁ generalizing r₂ with
+  | nil =>
+    cases r₂ with
+    | nil => rfl
+    | cons p l =>
+      obtain ⟨s, e⟩ := p
+      have hc := normal_cons h₂
+      exact absurd ((h s).2 (memRanges_cons.2 (Or.inl ⟨Int.le_refl _, hc.2.1⟩))) (memRanges_nil s)
+  | cons p₁ l₁ ih =>
+    obtain ⟨s₁, e₁⟩ := p₁
+    have hc₁ := normal_cons h₁
+    cases r₂ with
+    | nil =>
+      exact absurd ((h s₁).1 (memRanges_cons.2 (Or.inl ⟨Int.le_refl _, hc₁.2.1⟩)))
+        (memRanges_nil s₁)
+    | cons p₂ l₂ =>
+      obtain ⟨s₂, e₂⟩ := p₂
+      have hc₂ := normal_cons h₂
+      have hin : ∀ {s e : Int} {l : List (Int × Int)} {x : Int}, s ≤ x → x < e →
+          Spec.memRanges ((s, e) :: l) x := fun hs he => memRanges_cons.2 (Or.inl ⟨hs, he⟩)
+      -- the first ranges start at the common minimum
+      have hs : s₁ = s₂ := by
+        have a := normal_lower l₂ s₂ e₂ h₂ s₁ ((h s₁).1 (hin (Int.le_refl _) hc₁.2.1))
+        have b := normal_lower l₁ s₁ e₁ h₁ s₂ ((h s₂).2 (hin (Int.le_refl _) hc₂.2.1))
+        omega
+      subst hs
+      -- `e` itself is not a member
+      have hnot : ∀ {s e : Int} {l : List (Int × Int)}, Spec.NormalRanges ((s, e) :: l) →
+          ¬ Spec.memRanges ((s, e) :: l) e := by
+        intro s e l hn hm
+        rcases memRanges_cons.1 hm with hm | hm
+        · exact absurd hm.2 (Int.lt_irrefl _)
+        · exact absurd (normal_gap hn e hm) (Int.lt_irrefl _)
+      have he : e₁ = e₂ := by
+        rcases Int.lt_trichotomy e₁ e₂ with hlt | heq | hgt
+        · exact absurd ((h e₁).2 (hin (Int.le_of_lt hc₁.2.1) hlt)) (hnot h₁)
+        · exact heq
+        · exact absurd ((h e₂).1 (hin (Int.le_of_lt hc₂.2.1) hgt)) (hnot h₂)
+      subst he
+      have ht : l₁ = l₂ := by
+        apply ih l₂ hc₁.2.2 hc₂.2.2
+        intro x
+        constructor
+        · intro hx
+          have hgt := normal_gap h₁ x hx
+          rcases memRanges_cons.1 ((h x).1 (memRanges_cons.2 (Or.inr hx))) with h' | h'
+          · have := h'.2
+            exact absurd hgt (by simp only at this; omega)
+          · exact h'
+        · intro hx
+          have hgt := normal_gap h₂ x hx
+          rcases memRanges_cons.1 ((h x).2 (memRanges_cons.2 (Or.inr hx))) with h' | h'
+          · have := h'.2
+            exact absurd hgt (by simp only at this; omega)
+          · exact h'
+      rw [ht]
 
 /-- `End()` is the largest position plus one, or 0 when empty -/
 theorem positionsEnd_spec (r : List PRange) (h : Spec.NormalRanges (toPairs r)) :
     (r = [] → positionsEnd r = 0) ∧
     (r ≠ [] → Spec.memRanges (toPairs r) (positionsEnd r - 1)) ∧
     (∀ x, Spec.memRanges (toPairs r) x → x < positionsEnd r) := by
-  sorry
+  rw [normal_iff] at h
+  obtain ⟨hg, hd⟩ := h
+  rcases List.eq_nil_or_concat r with rfl | ⟨init, l, rfl⟩
+  · exact ⟨fun _ => rfl, fun h => absurd rfl h, fun x hx => absurd hx (memRanges_nil x)⟩
+  · rw [List.concat_eq_append] at *
+    have hpe : positionsEnd (init ++ [l]) = l.stop := by
+      unfold positionsEnd
+      rw [List.getLast?_concat]
+    rw [hpe]
+    rw [good_append, good_singleton] at hg
+    rw [disj_snoc] at hd
+    refine ⟨fun h => absurd h (by simp), fun _ => ?_, fun x hx => ?_⟩
+    · rw [memRanges_toPairs, memR_append, memR_singleton]
+      exact Or.inr ⟨by omega, by omega⟩
+    · rw [memRanges_toPairs, memR_append, memR_singleton] at hx
+      rcases hx with ⟨a, ha, hx⟩ | hx
+      · have := hd.2 a ha
+        omega
+      · omega
 
 /-- `UpTo(e)` / `Between(s, e)` are the single-AddRange normal forms -/
 theorem between_spec (s e : Int) :
     ∃ r, between s e = .ok r ∧ Spec.NormalRanges (toPairs r) ∧
       ∀ x, Spec.memRanges (toPairs r) x ↔ (0 ≤ x ∧ s ≤ x ∧ x < e) := by
-  sorry
+  obtain ⟨b, e1, hb, hm⟩ := addRange_spec {} s e inv_empty
+  obtain ⟨r, e2, hn, hmr⟩ := buildWith_spec b hb _ (sortByStart_isSort b.ranges)
+  refine ⟨r, ?_, hn, ?_⟩
+  · unfold between
+    rw [e1]
+    show (b.build >>= fun r => pure r.1) = _
+    unfold Builder.build
+    rw [e2]
+    rfl
+  · intro x
+    rw [hmr, hm]
+    constructor
+    · rintro (h | h)
+      · exact absurd h (memR_nil x)
+      · exact h
+    · exact Or.inr
 
 theorem upTo_spec (e : Int) :
     ∃ r, upTo e = .ok r ∧ Spec.NormalRanges (toPairs r) ∧
       ∀ x, Spec.memRanges (toPairs r) x ↔ (0 ≤ x ∧ x < e) := by
-  sorry
+  obtain ⟨r, e1, hn, hm⟩ := between_spec 0 e
+  refine ⟨r, e1, hn, ?_⟩
+  intro x
+  rw [hm]
+  constructor
+  · rintro ⟨h0, _, h1⟩; exact ⟨h0, h1⟩
+  · rintro ⟨h0, h1⟩; exact ⟨h0, h0, h1⟩
 
 /-- Build leaves the builder empty (whatever it returns) -/
 theorem build_resets (b : Builder) (sorted : List PRange) (r : List PRange) (b' : Builder)
     (h : b.buildWith sorted = .ok (r, b')) : b' = {} := by
-  sorry
+  unfold Builder.buildWith at h
+  split at h
+  · exact (Prod.mk.inj (Except.ok.inj h)).2.symm
+  · cases hm : mergeSorted sorted with
+    | error p => rw [hm] at h; cases h
+    | ok r' =>
+      rw [hm] at h
+      exact (Prod.mk.inj (Except.ok.inj h)).2.symm
 
 end Sqroot.Proofs
